@@ -61,16 +61,19 @@ func newInitialStatus(ctx context.Context,
 	log types.Logger, networkID uint32,
 	storage db.AggSenderStorage,
 	aggLayerClient agglayer.AggLayerClientRecoveryQuerier) (*initialStatus, error) {
-	log.Infof("recovery: checking last settled certificate from AggLayer for network %d", networkID)
-	aggLayerLastSettledCert, err := aggLayerClient.GetLatestSettledCertificateHeader(ctx, networkID)
-	if err != nil {
-		return nil, fmt.Errorf("recovery: error getting GetLatestSettledCertificateHeader from agglayer: %w", err)
-	}
-
+	// The two queries are not atomic. A certificate only moves from pending to settled, so the pending
+	// one is read first: if it settles in between it is seen by both queries (an inconsistency that is
+	// detected and retried) instead of by none of them (which would look like an empty AggLayer)
 	log.Infof("recovery: checking last pending certificate from AggLayer for network %d", networkID)
 	aggLayerLastPendingCert, err := aggLayerClient.GetLatestPendingCertificateHeader(ctx, networkID)
 	if err != nil {
 		return nil, fmt.Errorf("recovery: error getting GetLatestPendingCertificateHeader from agglayer: %w", err)
+	}
+
+	log.Infof("recovery: checking last settled certificate from AggLayer for network %d", networkID)
+	aggLayerLastSettledCert, err := aggLayerClient.GetLatestSettledCertificateHeader(ctx, networkID)
+	if err != nil {
+		return nil, fmt.Errorf("recovery: error getting GetLatestSettledCertificateHeader from agglayer: %w", err)
 	}
 
 	localLastCert, err := storage.GetLastSentCertificateHeader()
